@@ -50,6 +50,7 @@ type protoRec struct {
 	Type     string   `json:"type"`
 	SK       string   `json:"sk"`
 	Redacts  string   `json:"redacts"`
+	Num      string   `json:"num"`
 	Con      classMap `json:"con"`
 	TpiObj   bool     `json:"tpiobj"`
 	Tpi      classMap `json:"tpi"`
@@ -79,6 +80,8 @@ type rec struct {
 	Algo  int      `json:"algo"`
 	Proto protoRec `json:"proto"`
 	Steps []step   `json:"steps"`
+	// the specification says EventBuilder.Build refuses the proto-event (no event)
+	Refuse bool `json:"refuse"`
 	// sib
 	F      string    `json:"f"`
 	Proto2 *protoRec `json:"proto2"`
@@ -227,6 +230,35 @@ func valueOf(ver, typ, key, tok string, seed int64) json.RawMessage {
 	return q(fmt.Sprintf("%s-%s-%d", key, tok, seed))
 }
 
+// numValue realises a number class of the specification (content key zz_num) as JSON text.
+func numValue(class string) json.RawMessage {
+	switch class {
+	case "max":
+		return json.RawMessage(`9007199254740991`)
+	case "min":
+		return json.RawMessage(`-9007199254740991`)
+	case "zero":
+		return json.RawMessage(`0`)
+	case "frac":
+		return json.RawMessage(`1.5`)
+	case "exp":
+		return json.RawMessage(`1e3`)
+	case "capexp":
+		return json.RawMessage(`1E2`)
+	case "big":
+		return json.RawMessage(`9007199254740992`)
+	case "negbig":
+		return json.RawMessage(`-9007199254740992`)
+	case "negzero":
+		return json.RawMessage(`-0`)
+	case "fraczero":
+		return json.RawMessage(`2.0`)
+	case "nested":
+		return json.RawMessage(`{"a":[7,1.5],"b":"x"}`)
+	}
+	panic("harness: unknown number class " + class)
+}
+
 func signedValue(tok string) json.RawMessage {
 	return json.RawMessage(`{"mxid":"@bob:` + hs2 + `","token":"tok-` + tok + `","signatures":{"id.example.org":{"ed25519:0":"c2lnbmF0dXJl"}}}`)
 }
@@ -260,6 +292,10 @@ func contentOf(ver string, p *protoRec, seed int64) json.RawMessage {
 				}
 			}
 			m[k] = marshalRawMap(sub)
+			continue
+		}
+		if k == "zz_num" {
+			m[k] = numValue(tok)
 			continue
 		}
 		m[k] = valueOf(ver, p.Type, k, tok, seed)
